@@ -187,7 +187,9 @@ PROPS["C03"] = dict(
                "(head first, no repetition, never the null dart) for every well-formed 2-map, dart and policy; Vertex/Edge/Face "
                "closures are inverse-closed; vertex/edge/face ids are orbit minima, equal exactly within a cell; iterators "
                "list the self-identified in-use darts in increasing order; transactional = plain. Tied to the code by "
-               "exhaustive (all well-formed maps <=4 darts) and random query runs; 3-map part: see DESIGN.md",
+               "exhaustive (all well-formed maps <=4 darts) and random query runs. 3-maps: proved on every in-range store -- orbit = "
+               "closure (C03_orbit3), vertex / edge / volume identifiers = orbit minima and never out of fuel (C03_*_id3); the face "
+               "identifier walk, inverse-closure on mirrored maps, iterators and transactional orbits are decided per observation",
     technique="Coq proof (verified worklist = reachability closure, ids = minima) + correspondence + extracted spec oracle",
     families=[
         Family("query2-random", "core2", r_query2, 1, [(3, "orbit_spec", C03_CLASSES)]),
@@ -584,8 +586,10 @@ PROPS["C02"] = dict(
     level_text="the 3-map calls (links with the lock-step face walks, sews, allocation, ids, orbits) are transcribed in Gallina and "
                "compared with the implementation (random histories from free darts, edits of hexahedral grids, all pairs of "
                "closed/open faces of 1-5 sides); the property (wf3 with the mirror clause; refusal of non-mirrorable faces) is "
-               "an executable Coq predicate applied to every implementation observation. The inductive proof of wf3 over "
-               "histories is not done (see DESIGN.md)",
+               "an executable Coq predicate applied to every implementation observation, proved to decide exactly wf3 "
+               "(C02_oracle_wf3). Proved for all inputs: the link cores are the programs regenerated from betas.rs; the "
+               "invariant is kept by allocation, slot reuse, removal, data-only transactions and by every step that does not "
+               "report success (C02_invariant_partial). NOT proved: preservation by successful links and sews (the 3-link walks)",
     technique="Coq model of the 3-map calls + correspondence + extracted wf3 / mirrorable oracle",
     families=[
         Family("core3-random", "core3", r_core3("random", 1200, 25000, 25, ["--darts", "10"]), 50, [(51, "wf3_step", WF3_CLASSES)]),
